@@ -339,9 +339,43 @@ class ModelEval(Evaluator):
                 except Unsupported as e:
                     raise Unsupported("module-level value %s: %s" % (key, e))
                 state[key] = val         # evaluated ONCE: mutable tables keep their contents, sentinels (`_MISSING = object()`) their identity
+                self._module_effects(r[1], state)
                 return val
             raise Unsupported("module-level value %s" % key)
         raise Unsupported("unbound name %s" % what)
+
+    def _module_effects(self, mod, state):
+        """Import-time effects of a module on its own module-level objects, replayed once per fold in source order: registering decorators
+        (`@_register(Vector)` on a top-level function, the decorator being a function of the package) and top-level statements that call a
+        method of / store into a module-level object (`_TABLE.append(...)`, `_TABLE["k"] = f`)."""
+        flag = "__effects__:" + mod.rel
+        if flag in state:
+            return
+        state[flag] = True
+        module_values = set()
+        for st in mod.tree.body:
+            for t in (st.targets if isinstance(st, ast.Assign) else [st.target] if isinstance(st, ast.AnnAssign) else []):
+                if isinstance(t, ast.Name):
+                    module_values.add(t.id)
+
+        def root(n):
+            while isinstance(n, (ast.Attribute, ast.Subscript)):
+                n = n.value
+            return n.id if isinstance(n, ast.Name) else None
+        sub = ModelEval(self.tree, _ModuleCtx(mod), {}, self.hooks, self.depth + 1, self.shared)
+        try:
+            for st in mod.tree.body:
+                if isinstance(st, (ast.FunctionDef, ast.ClassDef)):
+                    for d in reversed(st.decorator_list):
+                        f = d.func if isinstance(d, ast.Call) else d
+                        if isinstance(f, ast.Name) and isinstance(self.tree.resolve_name(mod, f.id), FuncInfo):
+                            sub.call(d, sub.ev(d), [sub.ev(ast.copy_location(ast.Name(id=st.name, ctx=ast.Load()), st))], {})
+                elif isinstance(st, ast.Expr) and isinstance(st.value, ast.Call) and isinstance(st.value.func, ast.Attribute) and root(st.value.func) in module_values:
+                    sub.ev(st.value)
+                elif isinstance(st, ast.Assign) and len(st.targets) == 1 and isinstance(st.targets[0], (ast.Subscript, ast.Attribute)) and root(st.targets[0]) in module_values:
+                    sub.exec_stmt(st)
+        except Unsupported as e:
+            raise Unsupported("import-time effects of %s: %s" % (mod.rel, e))
 
     # ------------------------------------------------------------------ attributes
     def attr(self, node, base):
@@ -354,6 +388,8 @@ class ModelEval(Evaluator):
             if base.kind == "pkg" and isinstance(base.data[0], ClassInfo):
                 m = self.tree.method(base.data[0], a)
                 if m is not None:
+                    if any(isinstance(d, ast.Name) and d.id == "classmethod" for d in m.node.decorator_list):
+                        return Marker("bound", m, base)
                     return Marker("pkg", m)
                 if a == "__name__":
                     return base.data[0].name
@@ -1100,9 +1136,17 @@ class ModelEval(Evaluator):
                 vals[k] = v
             for n, dflt in fields:
                 if n not in vals:
+                    sub = ModelEval(self.tree, _ModuleCtx(cls.module), {}, self.hooks, self.depth + 1, self.shared)
+                    if isinstance(dflt, ast.Call) and self.tree.dotted(cls.module, dflt.func) == "dataclasses.field":
+                        # field(default=...) / field(default_factory=...): the factory is called afresh for every instance
+                        kws = {k.arg: k.value for k in dflt.keywords}
+                        if "default_factory" in kws:
+                            vals[n] = sub.call(dflt, sub.ev(kws["default_factory"]), [], {})
+                            continue
+                        dflt = kws.get("default")
                     if dflt is None:
                         raise Raised("TypeError", node, "%s() missing required argument %r" % (cls.name, n))
-                    vals[n] = ModelEval(self.tree, _ModuleCtx(cls.module), {}, self.hooks, self.depth + 1, self.shared).ev(dflt)
+                    vals[n] = sub.ev(dflt)
             for n in names:
                 obj._attrs[n] = vals[n]
             if kind == "namedtuple":
